@@ -19,6 +19,7 @@ import (
 	"github.com/pkg/errors"
 	"github.com/tokenized/bitcoin_reader/headers"
 	"github.com/tokenized/pkg/bitcoin"
+	"github.com/tokenized/pkg/merkle_proof"
 	"github.com/tokenized/pkg/storage"
 	"github.com/tokenized/pkg/wire"
 
@@ -29,12 +30,17 @@ type PlanHdr struct {
 	P    int    `json:"p"` // parent index in the plan (0 = genesis)
 	Bits uint32 `json:"bits"`
 	T    uint32 `json:"t"`
+	W    int    `json:"w,omitempty"` // width of the block behind this header (0: arbitrary merkle root)
 }
 
 type Op struct {
-	K string `json:"k"` // submit mark unmark clean save load observe sub
+	K string `json:"k"` // submit mark unmark clean save load observe sub proof locator
 	I int    `json:"i,omitempty"`
 	D int    `json:"d,omitempty"`
+	// proof: header I, transaction J, with the header or the block hash only, corruption
+	J          int    `json:"j,omitempty"`
+	WithHeader bool   `json:"with_header,omitempty"`
+	Corrupt    string `json:"corrupt,omitempty"`
 }
 
 type Case struct {
@@ -109,6 +115,13 @@ func newRunner(c *Case) *runner {
 		h := &wire.BlockHeader{Version: 1, PrevBlock: *r.hdrs[ph.P].BlockHash(), Timestamp: ph.T, Bits: ph.Bits, Nonce: uint32(i)}
 		binary.LittleEndian.PutUint32(h.MerkleRoot[0:], uint32(c.ID))
 		binary.LittleEndian.PutUint32(h.MerkleRoot[4:], uint32(i))
+		if ph.W > 0 {
+			tree := merkle_proof.NewMerkleTree(false)
+			for _, tx := range blockTxs(c.ID, i, ph.W) {
+				tree.AddHash(*tx.TxHash())
+			}
+			h.MerkleRoot = tree.RootHash()
+		}
 		r.hdrs[i] = h
 		r.ids[*h.BlockHash()] = i + 1
 	}
@@ -146,6 +159,85 @@ func (r *runner) drain() []int {
 }
 
 func (r *runner) tipID() int { return r.id(r.repo.LastHash()) }
+
+func blockTxs(caseID, hdr, w int) []*wire.MsgTx {
+	txs := make([]*wire.MsgTx, w)
+	for j := range txs {
+		tx := wire.NewMsgTx(1)
+		tx.LockTime = uint32(caseID*1000000 + hdr*1000 + j)
+		txs[j] = tx
+	}
+	return txs
+}
+
+// proofOp builds the merkle proof of transaction J of header I's block with the real merkle tree,
+// applies the requested corruption, and asks the repository to verify it.
+func (r *runner) proofOp(c *Case, op Op) (obs, int, bool) {
+	w := c.Hdrs[op.I].W
+	txs := blockTxs(c.ID, op.I, w)
+	j := op.J % w
+	tree := merkle_proof.NewMerkleTree(true)
+	tree.AddMerkleProof(*txs[j].TxHash())
+	for _, tx := range txs {
+		tree.AddHash(*tx.TxHash())
+	}
+	_, proofs := tree.FinalizeMerkleProofs()
+	p := proofs[0].Copy()
+	x := op.I + 1 // model id of the header the proof points at
+	pathOK := true
+	hdr := r.hdrs[op.I]
+	depth := len(p.Path) + len(p.DuplicatedIndexes)
+	switch op.Corrupt {
+	case "txid":
+		t := *p.TxID
+		t[5] ^= 0x40
+		p.TxID = &t
+		pathOK = false
+	case "path":
+		if len(p.Path) > 0 {
+			p.Path[(op.J/3)%len(p.Path)][7] ^= 1
+			pathOK = false
+		}
+	case "index_in":
+		if depth > 0 {
+			p.Index ^= 1 << uint((op.J/2)%depth)
+			pathOK = false
+		}
+	case "index_out":
+		p.Index += 1 << uint(depth)
+		pathOK = false
+	case "header": // another header of the plan: its merkle root is a different one
+		o := 1 + (op.I+op.J)%(len(c.Hdrs)-1)
+		if o != op.I {
+			hdr = r.hdrs[o]
+			x = o + 1
+			pathOK = false
+		}
+	case "unknown":
+		h2 := *hdr
+		h2.Nonce ^= 0x55555555
+		hdr = &h2
+		x = 999999
+	}
+	if op.WithHeader {
+		p.BlockHeader = hdr
+		p.BlockHash = nil
+	} else {
+		p.BlockHeader = nil
+		p.BlockHash = hdr.BlockHash()
+	}
+	height, flag, err := r.repo.VerifyMerkleProof(r.ctx, &p)
+	o := obs{kind: "verify", ok: err == nil, tipH: height}
+	if err != nil {
+		o.tipH = -1
+		flag = false
+	}
+	o.pick = 0
+	if flag {
+		o.pick = 1
+	}
+	return o, x, pathOK
+}
 
 type lookup struct {
 	hash, height, ckHeight   int
@@ -287,6 +379,16 @@ func (r *runner) exec(op Op) (o obs) {
 		return obs{kind: "unit"}
 	case "observe":
 		return r.snapshot()
+	case "locator":
+		l, err := r.repo.GetLocatorHashes(r.ctx, op.D)
+		o := obs{kind: "locator"}
+		if err != nil {
+			return obs{kind: "panic"}
+		}
+		for _, h := range l {
+			o.chain = append(o.chain, r.id(h))
+		}
+		return o
 	}
 	return obs{kind: "unit"}
 }
@@ -320,7 +422,35 @@ func coqCase(c *Case) (string, map[string]int) {
 	}
 	qs = append(qs, 999999)
 	for _, op := range c.Ops {
-		o := r.exec(op)
+		var o obs
+		if op.K == "proof" {
+			if c.Hdrs[op.I].W == 0 {
+				continue
+			}
+			var x int
+			var pathOK bool
+			func() {
+				defer func() {
+					if rec := recover(); rec != nil {
+						o = obs{kind: "panic"}
+					}
+				}()
+				o, x, pathOK = r.proofOp(c, op)
+			}()
+			st["op_proof"]++
+			st["proof_"+op.Corrupt]++
+			ops = append(ops, fmt.Sprintf("OVerify %d %s %s", x, coqfmt.Bool(op.WithHeader), coqfmt.Bool(pathOK)))
+			if o.kind == "panic" {
+				outs = append(outs, "RPanic")
+			} else {
+				if o.ok {
+					st["proof_verified"]++
+				}
+				outs = append(outs, fmt.Sprintf("RVerify %s %s %s", coqfmt.Bool(o.ok), coqfmt.Z(int64(o.tipH)), coqfmt.Bool(o.pick == 1)))
+			}
+			continue
+		}
+		o = r.exec(op)
 		if o.kind == "skip" {
 			st["skipped_"+op.K]++
 			continue
@@ -343,6 +473,8 @@ func coqCase(c *Case) (string, map[string]int) {
 			continue
 		case "observe":
 			ops = append(ops, "OObserve "+ints(qs))
+		case "locator":
+			ops = append(ops, fmt.Sprintf("OLocator %d", op.D))
 		}
 		switch o.kind {
 		case "submit":
@@ -355,6 +487,8 @@ func coqCase(c *Case) (string, map[string]int) {
 			outs = append(outs, "RUnit")
 		case "load":
 			outs = append(outs, "RLoad "+coqfmt.Bool(o.ok))
+		case "locator":
+			outs = append(outs, "RLocator "+ints(o.chain))
 		case "panic":
 			st["impl_panic_or_error"]++
 			outs = append(outs, "RPanic")
@@ -381,6 +515,7 @@ var bitsPool = []uint32{0x1d00ffff, 0x1d00ffff, 0x1d00ffff, 0x1c7fffff, 0x1d01ff
 type profile struct {
 	mask                                  int
 	clean, save, load, mark, extraSubs    int // weights (per 100 ops)
+	proofs, locators                      int
 	dupes, orphans                        int
 	twinDrop                              string // op kinds removed in the control twin ("" = none)
 }
@@ -400,6 +535,10 @@ var profiles = map[string]profile{
 	"C11": {mask: 1 | 4 | 8 | 16, clean: 4, save: 3, load: 8, dupes: 2, orphans: 2, twinDrop: "save,load"},
 	// invalid marking
 	"C17": {mask: 1 | 4 | 8, mark: 8, save: 1, load: 2, dupes: 3, orphans: 2},
+	// merkle proofs against headers on the best chain, on side branches, pruned and reloaded
+	"C18": {mask: 128, proofs: 60, clean: 6, save: 2, load: 4, orphans: 3},
+	// locators after every operation
+	"C19": {mask: 256, locators: 100, clean: 6, save: 2, load: 4, orphans: 3, dupes: 2},
 }
 
 // genOvertake builds the "fork overtakes after maintenance" scenario: a main chain, several forks at
@@ -522,16 +661,24 @@ func genCase(r *coqfmt.Rand, id int, pf profile, size int) Case {
 			}
 		}
 		bits := bitsPool[r.Intn(len(bitsPool))]
-		c.Hdrs = append(c.Hdrs, PlanHdr{P: p, Bits: bits, T: t0 + uint32(600*(height[p]+1)) + uint32(r.Intn(900))})
+		w := 0
+		if pf.proofs > 0 {
+			w = 1 + r.Intn(9)
+			if r.Chance(1, 6) {
+				w = 10 + r.Intn(40)
+			}
+		}
+		c.Hdrs = append(c.Hdrs, PlanHdr{P: p, Bits: bits, T: t0 + uint32(600*(height[p]+1)) + uint32(r.Intn(900)), W: w})
 		height = append(height, height[p]+1)
-		w := map[uint32]int{0x1d00ffff: 16, 0x1c7fffff: 32, 0x1d01fffe: 8, 0x1c0fffff: 256}[bits]
-		work = append(work, work[p]+w)
+		wk := map[uint32]int{0x1d00ffff: 16, 0x1c7fffff: 32, 0x1d01fffe: 8, 0x1c0fffff: 256}[bits]
+		work = append(work, work[p]+wk)
 		child = append(child, 0)
 		child[p]++
 		if work[i] > work[best] {
 			best = i
 		}
 	}
+	_ = work
 	// operation order
 	var pendingOrphans []int
 	marked := []int{}
@@ -591,6 +738,13 @@ func genCase(r *coqfmt.Rand, id int, pf profile, size int) Case {
 		}
 		if r.Intn(100) < pf.extraSubs {
 			c.Ops = append(c.Ops, Op{K: "sub"})
+		}
+		for k := 0; k < 3 && r.Intn(100) < pf.proofs; k++ {
+			cor := []string{"", "", "", "txid", "path", "index_in", "index_out", "header", "unknown"}[r.Intn(9)]
+			c.Ops = append(c.Ops, Op{K: "proof", I: 1 + r.Intn(i), J: r.Intn(60), WithHeader: r.Chance(1, 2), Corrupt: cor})
+		}
+		if r.Intn(100) < pf.locators {
+			c.Ops = append(c.Ops, Op{K: "locator", D: []int{1, 3, 10, 50}[r.Intn(4)]})
 		}
 	}
 	for _, j := range pendingOrphans {
